@@ -495,7 +495,8 @@ struct Proto
     bool has{false}, nb{false};
     int nd{0};
     int ls{-1};
-    auto key() const { return std::make_tuple(ph, pos, dir, ref, has, nb, nd, ls); }
+    // a reported safety below 2 admits no MoveTo target, so it does not distinguish protocol states
+    auto key() const { return std::make_tuple(ph, pos, dir, ref, has, nb, nd, ls >= 4 ? ls : -1); }
 };
 
 struct Op
@@ -668,7 +669,9 @@ std::vector<Op> alphabet(Proto const& a, bool rich)
     push(Op{"MoveB"});
     push(Op{"Cross"});
     push(Op{"Find"});
+    if (rich || !a.has)
     {
+        // exhaustive mode: limited searches only from states without a cached step
         Op o{"FindMax"};
         o.m = 2;
         push(o);
@@ -691,7 +694,9 @@ std::vector<Op> alphabet(Proto const& a, bool rich)
     push(Op{"Safety"});
     for (auto const& d : dirs6)
     {
-        if (!rich && d == a.dir && a.ph == 'I')
+        // exhaustive mode, interior: all five other directions from a fresh state, only the
+        // reversal once a step is cached (every (pos, dir) is a start state anyway)
+        if (!rich && a.ph == 'I' && (d == a.dir || (a.has && d != neg(a.dir))))
             continue;
         Op o{"SetDir"};
         o.v = d;
